@@ -1,4 +1,5 @@
 import Mainchain.Lemmas.StreamLive
+import Mainchain.Lemmas.StreamTopUp
 /-
 C12 — Stream funds are never stranded.
 -/
@@ -44,6 +45,25 @@ theorem c12_cancel_succeeds (g : GenCfg) (hg : GenBankValid g) (s : State) (h : 
   have hfs : findStream (toSB s) r sn eStrInvalidData = .ok st := by simp [findStream, toSB, hf]
   have hcan : st.cancellable = true := hwf.canc _ _ hf
   simp [cancelStreamMsg, AddrTok.decodeM, AddrTok.decode, bind, Except.bind, hfs, hcan, require_true, hc]
+
+/-- …and **a top-up the sender can afford succeeds**, on a running stream as on one that has run out (which is settled
+first): for every stream in every state of every run, every positive amount the (non-vesting, non-blocked) sender holds in
+the stream's denomination, provided the run time it buys, ⌊amount / flow rate⌋ seconds, is within the module's limit
+`MaxDurationSeconds` (about 292 years — the handler enforces that limit per top-up: it is the one way a top-up the sender can
+afford is refused, and it is deliberate). -/
+theorem c12_topup_succeeds (g : GenCfg) (hg : GenBankValid g) (s : State) (h : FineReach g RateQ s)
+    (hfee : 0 ≤ s.str.fee ∧ s.str.fee ≤ (pow18 : Int)) (hsmall : Small254 s.bank)
+    (r sn : Addr) (st : Stream) (hf : find? s.str.streams (r, sn) = some st) (hs : MaySign sn)
+    (amt : Int) (hamt : 0 < amt) (hnv : find? s.bank.vest sn = none) (hfunds : amt ≤ s.bank.balOf sn st.denom)
+    (hdur : calcDuration amt st.rate ≤ maxDurationSeconds) :
+    ∃ out, topUpDeposit (toSB s) s.time isBlocked (.ok r false) (.ok sn false) st.denom amt = .ok out := by
+  obtain ⟨hi, hwf⟩ := strWF_reachable g hg s h
+  obtain ⟨x', hc⟩ := topup_succeeds (toSB s) s.time r sn st hi hwf hfee hsmall hf (maySign_not_blocked sn hs) amt hamt hnv hfunds hdur
+  have hfs : findStream (toSB s) r sn eStrInvalidData = .ok st := by simp [findStream, toSB, hf]
+  have hpos : coinNotPositive amt = false := by simp [coinNotPositive]; omega
+  simp only [topUpDeposit, AddrTok.decodeM, AddrTok.decode, bind, Except.bind, hfs, hpos, Bool.not_false, require_true, hc,
+    decide_true, pure, Except.pure]
+  exact ⟨_, rfl⟩
 
 /-- the validator-fee rate stored in state is always within [0,1] (so the hypotheses above hold in
 every reachable state) -/
